@@ -116,6 +116,18 @@ static void veto_sink(const unsigned char *s, size_t n, void *arg) {
             mc_violation(corpus_name(CURPH8), "veto:mask-matters-with-tld_check-off", "", cfg, s, n, "tld_check off: mask 0 gives ret=%d errcode=%d, mask 0x%03x gives ret=%d errcode=%d", ret[0][0], err[0][0], PMASK[k], ret[0][k], err[0][k]); break; }
         if (any_on && !ret[0][0])
             mc_violation(corpus_name(CURPH8), "veto:accepted-with-policy-refused-without", "", cfg, s, n, "accepted under some mask with tld_check on, but refused (errcode %d) with tld_check off", err[0][0]);
+        /* (4) both halves valid by the reference and an ASCII host name: with tld_check on the decision under every mask is "bit of the class
+         *     the shipped data gives this name" (reserved names first, then the table row of the last label), tld_check off accepts */
+        if (!refrej && at > 0 && m != 3 && s[at + 1] != '[' && ref_local(s, (size_t)at, m, 0) == R_ACC) {
+            const char *D = (const char *)s + at + 1; size_t dn = n - (size_t)at - 1; int fam;
+            if (ref_domainpart((const unsigned char *)D, dn, 0, &fam) == R_ACC && D[dn - 1] != '.') {
+                int cls; if (ref_special(D, dn)) cls = TLD_TYPE_SPECIAL; else { size_t i = dn; while (i > 0 && D[i - 1] != '.') i--; cls = i == 0 ? 0 : rt_lookup(&RT_PUNY, D + i, dn - i); }
+                for (int k = 0; k < NPM; k++) { int want = cls > 0 && (PMASK[k] & bit_of(cls));
+                    if (ret[1][k] != want) { char w[96]; snprintf(w, sizeof w, "veto:class-%d:decision-under-mask-differs", cls);
+                        mc_violation(corpus_name(CURPH8), w, "", cfg, s, n, "class by the shipped data %d, mask 0x%03x: returned %d (errcode %d), expected %d", cls, PMASK[k], ret[1][k], err[1][k], want); break; } }
+                if (!ret[0][0]) mc_violation(corpus_name(CURPH8), "veto:valid-address-refused-with-tld_check-off", "", cfg, s, n, "both halves valid, tld_check off: refused with errcode %d", err[0][0]);
+            }
+        }
         if (refrej) for (int t = 0; t < 2; t++) for (int k = 0; k < NPM; k++) if (ret[t][k]) {
             mc_violation(corpus_name(CURPH8), "veto:reference-rejects-but-accepted-under-some-mask", "", cfg, s, n, "the reference models refuse this address; tld_check=%d mask 0x%03x: accepted", t, PMASK[k]); t = 2; break; }
     }
@@ -171,7 +183,7 @@ int main(int argc, char **argv) {
     }
     mc_extra_add("\"classes_present_in_table\":%d,\"real_addresses\":%d", classes_in_table, NREAL);
     mc_parallel("all 2^11 masks x 4 modes x tld on/off x (real addresses + injected classes/codes)", 2048, mask_shard, NULL);
-    { static const int PH[] = { CP_LPXDOM, CP_LOCAL, CP_EMAIL, CP_DOMAIN, CP_LITERAL, CP_MAXLIT, CP_LABELLEN };
+    { static const int PH[] = { CP_LPXDOM, CP_DEPTH, CP_TLD, CP_LOCAL, CP_EMAIL, CP_DOMAIN, CP_LITERAL, CP_MAXLIT, CP_LABELLEN };
       CORPUS_DEEP = mc_thorough; if (corpus_load()) return 2; veto_objects();
       for (unsigned i = 0; i < sizeof PH / sizeof PH[0]; i++) { CURPH8 = PH[i]; char nm[96]; snprintf(nm, sizeof nm, "veto: 14 masks x tld on/off x 4 modes over %.40s", corpus_name(CURPH8)); mc_parallel(nm, corpus_shards(CURPH8), veto_shard, NULL); } }
     mc_sh->ctr[C_NONTRIV] = mc_sh->ctr[C_REAL] + mc_sh->ctr[C_CB] + mc_sh->ctr[C_VETO];     /* (mask, mode, tld, case) tuples: distinct by construction */
